@@ -91,6 +91,7 @@ def run(run: common.Run):
         if case['sel'] == 'subset' and nsb > 1:
             kk = rng.randint(1, nsb - 1)
             sb = sorted(rng.sample(range(1, nsb + 1), kk))
+        thr = [0.25, 1 / 3, None, 0.123456789, 0.7][i % 5]     # in-paint threshold: round, and with more digits than a short format keeps
         force = False
         if case['sel'] == 'forced' and nsb > 1:
             # the user pairs the bands by hand, against the wavelengths, and forces it: the outputs describe THAT pairing
@@ -115,6 +116,7 @@ def run(run: common.Run):
                 res, hv = fusion.run_fuse_blocks(case['halvings'], src, ref, proc_ref, pair.src_path, pair.ref_path, d / 'out.tif',
                                                  model=case['model'], kernel_shape=case['kernel'], proc_crs=case['proc'], param=True,
                                                  threads=case['threads'], src_bands=sb, ref_bands=rb, force=force,
+                                                 model_config=dict(r2_inpaint_thresh=thr),
                                                  out_profile=dict(dtype=case['dtype'], nodata={'float32': float('nan'), 'int16': -9999, 'uint8': 0}[case['dtype']]))
                 outs[variant] = (res, pair)
         except BlockSizeError:
@@ -185,6 +187,19 @@ def run(run: common.Run):
             elif res.tags['FUSE_PROC_CRS'] != res.proc_crs or res.tags['FUSE_MODEL'] != case['model'].replace('-', '_') or \
                     res.tags['FUSE_KERNEL_SHAPE'] != str(tuple(case['kernel'])) or res.tags['FUSE_THREADS'] != str(case['threads']):
                 bad = f'tags do not record the effective settings: {res.tags}'
+            else:
+                # numeric settings are recorded exactly (a block memory like 0.0007324 MB, a threshold like 1/3): the text parses back
+                # to the very number that was used, in both outputs
+                for tg in (res.tags, res.param_tags):
+                    try:
+                        ok = float(tg['FUSE_MAX_BLOCK_MEM']) == float(res.max_block_mem) and \
+                            (tg['FUSE_R2_INPAINT_THRESH'] == 'None' if thr is None else float(tg['FUSE_R2_INPAINT_THRESH']) == float(thr))
+                    except (KeyError, ValueError):
+                        ok = False
+                    if not ok:
+                        bad = (f"tags do not record the numeric settings exactly: FUSE_MAX_BLOCK_MEM={tg.get('FUSE_MAX_BLOCK_MEM')!r} for "
+                               f"{res.max_block_mem!r}, FUSE_R2_INPAINT_THRESH={tg.get('FUSE_R2_INPAINT_THRESH')!r} for {thr!r}")
+                        break
         # south-up storage changes nothing
         if not bad and case['south'] != 'none':
             res2 = outs[case['south']][0]
